@@ -19,6 +19,9 @@ import Ptn.C17.Last3
 import Ptn.C17.FlatDist
 import Ptn.C17.FlatUpdate
 import Ptn.C17.FlatValid
+import Ptn.C17.FlatSegs
+import Ptn.C17.FlatDistAny
+import Ptn.C17.FlatCache
 /-! Property theorems for C17 (tree navigation, TDVP sweep order, initial cache keys).  Only
 property theorems and non-vacuity examples live here; helper lemmas are in `Lemmas.lean`,
 `Tree.lean`, `Path.lean`, ….  All theorems quantify over every ordered rooted tree `t` with
